@@ -9030,7 +9030,14 @@ bool SoPlexBase<R>::_parseSettingsLine(char* line, const int lineNumber)
                          SPX_SET_MAX_LINE_LEN) == 0)
          {
             int value;
-            value = std::stoi(paramValueString);
+            try
+            {
+               value = std::stoi(paramValueString);
+            }
+            catch(const std::exception&)
+            {
+               return false;
+            }
 
             if(setIntParam((SoPlexBase<R>::IntParam)param, value, false))
                break;
@@ -9063,12 +9070,33 @@ bool SoPlexBase<R>::_parseSettingsLine(char* line, const int lineNumber)
             Real value;
 
 #ifdef WITH_LONG_DOUBLE
-            value = std::stold(paramValueString);
+            try
+            {
+               value = std::stold(paramValueString);
+            }
+            catch(const std::exception&)
+            {
+               return false;
+            }
 #else
 #ifdef WITH_FLOAT
-            value = std::stof(paramValueString);
+            try
+            {
+               value = std::stof(paramValueString);
+            }
+            catch(const std::exception&)
+            {
+               return false;
+            }
 #else
-            value = std::stod(paramValueString);
+            try
+            {
+               value = std::stod(paramValueString);
+            }
+            catch(const std::exception&)
+            {
+               return false;
+            }
 #endif
 #endif
 
@@ -9129,7 +9157,14 @@ bool SoPlexBase<R>::_parseSettingsLine(char* line, const int lineNumber)
          unsigned int value;
          unsigned long parseval;
 
-         parseval = std::stoul(paramValueString);
+         try
+         {
+            parseval = std::stoul(paramValueString);
+         }
+         catch(const std::exception&)
+         {
+            return false;
+         }
 
          if(parseval > UINT_MAX)
          {
@@ -9519,7 +9554,14 @@ bool SoPlexBase<R>::parseSettingsString(char* string)
                          SPX_SET_MAX_LINE_LEN) == 0)
          {
             int value;
-            value = std::stoi(paramValueString);
+            try
+            {
+               value = std::stoi(paramValueString);
+            }
+            catch(const std::exception&)
+            {
+               return false;
+            }
 
             if(setIntParam((SoPlexBase<R>::IntParam)param, value, false))
                break;
@@ -9551,12 +9593,33 @@ bool SoPlexBase<R>::parseSettingsString(char* string)
          {
             Real value;
 #ifdef WITH_LONG_DOUBLE
-            value = std::stold(paramValueString);
+            try
+            {
+               value = std::stold(paramValueString);
+            }
+            catch(const std::exception&)
+            {
+               return false;
+            }
 #else
 #ifdef WITH_FLOAT
-            value = std::stof(paramValueString);
+            try
+            {
+               value = std::stof(paramValueString);
+            }
+            catch(const std::exception&)
+            {
+               return false;
+            }
 #else
-            value = std::stod(paramValueString);
+            try
+            {
+               value = std::stod(paramValueString);
+            }
+            catch(const std::exception&)
+            {
+               return false;
+            }
 #endif
 #endif
 
@@ -9617,7 +9680,14 @@ bool SoPlexBase<R>::parseSettingsString(char* string)
          unsigned int value;
          unsigned long parseval;
 
-         parseval = std::stoul(paramValueString);
+         try
+         {
+            parseval = std::stoul(paramValueString);
+         }
+         catch(const std::exception&)
+         {
+            return false;
+         }
 
          if(parseval > UINT_MAX)
          {
